@@ -5,6 +5,7 @@ from picosvg.arc_to_cubic import arc_to_cubic
 from common import *
 
 COQ_TARGETS = ['props/C12.vo']
+COQCHK_BUDGET_S = 900     # coqchk does not get through the closure of Interval's reflexive proofs in 40 minutes either (measured): do not wait that long
 ALWAYS_JUDGE = True   # flags/start-point part of C12 is not yet a theorem: judged on every run
 RULE = ("arcs over radii/coordinates spanning 1e-3..1e4, rotations in [-400,400] degrees, the four flag combinations, radii that "
         "exactly/barely/do not fit the chord, negative and zero radii, coincident endpoints; the generated model (exact Q arithmetic, "
